@@ -178,6 +178,13 @@ class TSet(Ty):
     def unwrap(self, v):
         if isinstance(v, VSet) and v.ety.sort == self.ety.sort:
             return v.t
+        if isinstance(v, (set, frozenset, list, tuple)):     # a set display / literal of symbolic elements
+            t = z3.K(self.ety.sort, z3.BoolVal(False))
+            for x in v:
+                t = z3.Store(t, self.ety.unwrap(x), True)
+            return t
+        if isinstance(v, VOpaque) and v.kind == "emptyset":
+            return z3.K(self.ety.sort, z3.BoolVal(False))
         raise Unsupported(f"set expected, got {v!r}")
 
     def empty(self):
